@@ -86,6 +86,21 @@ def run(c):
         t = tab["types"][o["ti"] - 1]; f = t["fields"][o["fi"] - 1]
         if t["type"] != o["type"] or f["name"] != o["field"]:
             raise Infra("IeFieldTable.tla and tables/ie_fields.json disagree at %r" % ((o["ti"], o["fi"]),))
+    # every small value of the element's length indicator as prior (0..16), contents 0x55, two values: what an accessor reads and
+    # writes does not depend on the number the length field happens to hold; and the field's last row for the driver's size sweep
+    for o in cases:
+        t = tab["types"][o["ti"] - 1]; f = t["fields"][o["fi"] - 1]
+        o["r1"] = f["r1"] if (f["kind"] in ("bits", "array") and t.get("container") == "buffer") else -1
+        g0 = o["groups"][0]
+        if o["r1"] >= 0 and not g0["walk"] and g0["priors"] and o["r1"] + 1 < g0["L"]:
+            # the element just long enough for the field to exist (its last row is the last octet present), and one octet more
+            p0 = g0["priors"][0]
+            for L in (o["r1"] + 1, o["r1"] + 2):
+                o["groups"].append(dict(L=L, walk=False, priors=[dict(iei=p0["iei"], len=p0["len"], oct=[b] * L) for b in (255, 85, 0)], values=g0["values"][:3]))
+        if g0["walk"] or not g0["priors"] or g0["priors"][0]["len"] < 0 or f["kind"] == "len": continue
+        L = g0["L"]
+        pri = [dict(iei=g0["priors"][0]["iei"], len=k, oct=[85] * L) for k in range(17)]
+        o["groups"].append(dict(L=L, walk=False, priors=pri, values=g0["values"][:2]))
     ncases = sum(len(g["priors"]) * len(g["values"]) for o in cases for g in o["groups"])
     # ---- driver (registry = plumbing, generated from the list of type names)
     reg = os.path.join(c.scratch, "reg_gen.go"); open(reg, "w").write(registry_go(tab))
